@@ -7,6 +7,8 @@ CONSTANTS
   MaxPending = 3
   Bursts = TRUE
   Loops = TRUE
+  Dists = TRUE
+  MaskSkip = TRUE
 INVARIANT Inv
 VIEW view
 ACTION_CONSTRAINT EmitEdge
